@@ -253,11 +253,28 @@ func (s *partSUT) apply(op partOp) (res J, err error) {
 			before[id] = s.objBusy(id)
 		}
 		_, busyBefore := s.totals()
+		s.reg.takeSamples()
 		tok, ok := s.strat().TryAcquire(keyCtx(s.cfg.Kind, op.Key))
+		// the in-flight samples emitted by this call (exactly one, tagged with the partition charged, for a grant)
+		sample := J{"tag": "", "v": 0}
+		nsamp := 0
+		for _, sm := range s.reg.takeSamples() {
+			if sm.ID == core.MetricInFlight {
+				nsamp++
+				tag := ""
+				if len(sm.Tags) > 0 {
+					tag = sm.Tags[0]
+				}
+				sample = J{"tag": tag, "v": int(sm.Value)}
+			}
+		}
+		if nsamp > 1 {
+			sample = J{"tag": fmt.Sprintf("?%d samples", nsamp), "v": 0}
+		}
 		bin := ""
 		if ok {
 			if tok == nil || !tok.IsAcquired() {
-				return J{"ok": true, "bin": "?token"}, nil
+				return J{"ok": true, "bin": "?token", "sample": sample}, nil
 			}
 			for _, id := range s.ids {
 				if s.objBusy(id) == before[id]+1 {
@@ -271,11 +288,11 @@ func (s *partSUT) apply(op partOp) (res J, err error) {
 			s.tokens[bin] = append(s.tokens[bin], tok)
 		} else {
 			if tok != nil && tok.IsAcquired() {
-				return J{"ok": false, "bin": "?token-acquired"}, nil
+				return J{"ok": false, "bin": "?token-acquired", "sample": sample}, nil
 			}
 			bin = "?"
 		}
-		return J{"ok": ok, "bin": bin}, nil
+		return J{"ok": ok, "bin": bin, "sample": sample}, nil
 	case "rel":
 		ts := s.tokens[op.Bin]
 		if len(ts) == 0 {
